@@ -45,7 +45,7 @@ def gen_doc(r, size, nsmode, xmlspace=False, exotic=True):
             ns = r.choice([2, 2, 3])
         e = {"k": "e", "ns": ns, "local": r.choice(LOCALS), "id": "e%d" % state["n"], "xs": None, "kids": []}
         if xmlspace and r.random() < 0.3:
-            e["xs"] = r.choice(["preserve", "preserve", "default"])
+            e["xs"] = r.choice(["preserve", "preserve", "default", "default", "other"])
         e["kids"] = gen_kids(depth)
         return e
 
@@ -260,7 +260,7 @@ def assign_prefixes(m, r, n=[0]):
 def module_text(m, with_decls, top_level="", seps=None):
     """the text of one module; top_level: extra top-level elements (main module only)"""
     pa, pb = m["pfx"]
-    out = '<xsl:stylesheet version="1.0" xmlns:xsl="%s" xmlns:%s="urn:u1" xmlns:%s="urn:u2">' % (XSL, pa, pb)
+    out = '<xsl:stylesheet version="1.0" xmlns:xsl="%s" xmlns:%s="urn:u1" xmlns:%s="urn:u2" xmlns:exsl="http://exslt.org/common">' % (XSL, pa, pb)
     for i in m["imports"]:
         out += '<xsl:import href="%s"/>' % i["name"]
     for k, it in enumerate(m["items"]):
@@ -414,6 +414,12 @@ BLOCKS = [
      '|<xsl:value-of select="name((//node())[3])"/>|<xsl:for-each select="//*[count(node())=0]"><xsl:value-of select="@id"/>,</xsl:for-each>'
      '|<xsl:value-of select="count(//text()[generate-id(.) = generate-id(../node()[1])])"/>|<xsl:value-of select="count(//text()/parent::*[last()])"/>'
      % (TR % ".", TR % ".")),
+    # result tree fragments are not source documents: their own whitespace text is never stripped (was K-C13-3)
+    ("rtf-node-set", "",
+     '<xsl:variable name="f"><a><xsl:text> </xsl:text><b><xsl:text>&#10;</xsl:text><c><xsl:text>&#9; </xsl:text></c></b><xsl:text>  </xsl:text></a><d>x<xsl:text> </xsl:text></d>'
+     '<xsl:copy-of select="/*"/></xsl:variable><xsl:value-of select="count(exsl:node-set($f)//text())"/>/<xsl:value-of select="count(exsl:node-set($f)/a/node())"/>/'
+     '<xsl:value-of select="string-length(exsl:node-set($f)/a)"/>/<xsl:value-of select="string-length($f)"/>|<xsl:for-each select="exsl:node-set($f)//*"><xsl:value-of select="count(node())"/>,'
+     '<xsl:value-of select="string-length(.)"/>;</xsl:for-each>|<xsl:copy-of select="exsl:node-set($f)/a"/>|<xsl:copy-of select="exsl:node-set($f)/*[3]"/>'),
     ("value-of-text", "",
      '<xsl:for-each select="//text()">[<xsl:value-of select="%s"/>]</xsl:for-each>|<xsl:variable name="t" select="//a/text()"/><xsl:value-of select="string-length($t)"/>'
      '<xsl:value-of select="count($t)"/>[<xsl:value-of select="$t"/>]|<xsl:for-each select="//*"><xsl:value-of select="%s"/>,</xsl:for-each>'
@@ -465,7 +471,8 @@ def node_model(n):
         return "C"
     if n["k"] == "p":
         return "P"
-    return "E%d.%d:%d %s" % (n["ns"], LOCAL_ID[n["local"]], len(n["kids"]), " ".join(node_model(k) for k in n["kids"]))
+    xs = {"preserve": "p", "default": "d"}.get(n["xs"], "o" if n["xs"] else "")
+    return "E%d.%d:%d%s %s" % (n["ns"], LOCAL_ID[n["local"]], len(n["kids"]), xs, " ".join(node_model(k) for k in n["kids"]))
 
 
 def model_line(cid, main, doc):
